@@ -27,9 +27,11 @@ OPS = {
     'C15': ['call', 'info', 'clear', 'management'],
     'C16': ['call', 'clear', 'archive', 'management'],
     'C18': ['key', 'lookup', 'management'],
-    'C08': ['call', 'clear', 'archive', 'management'],
-    'C12': ['call', 'key', 'rounding'],
+    'C08': ['call', 'clear', 'archive', 'management', 'new'],
+    'C12': ['call', 'key', 'rounding', 'new'],
     'C20': ['reduce'],
+    'C11': ['new'],
+    'C09': ['new'],
 }
 
 
